@@ -1231,3 +1231,289 @@ Section StepStart.
       rewrite (eval_no_sym fs sc c _ _ IR); [reflexivity|]. rewrite forallb_forall in NC. apply NC. apply in_flat_map. exists ic. split; assumption.
   Qed.
 End StepStart.
+
+(* ================================================================================================================ *)
+(* Composition with two happenings per durative step (start effects written, not read)                              *)
+(* ================================================================================================================ *)
+(* the durative action has exactly two effect entries: one at StartTiming(), then one at EndTiming() *)
+Definition two_entries (d : daction) : bool :=
+  match d_effs d with
+  | [(a, _); (b, _)] => is_start0 a && is_end0 b
+  | _ => false
+  end.
+
+Definition start_end_fragment (smp : expr -> expr) (TP : tproblem) : bool :=
+  t2s_fragment TP &&
+  forallb (fun id => two_entries (snd id) &&
+                     match t2s_action smp (snd id) with
+                     | Some a' => start_not_read_step smp (snd id) a'
+                     | None => false
+                     end) (tp_dur TP).
+
+Lemma start_end_excl tm : (is_start0 tm = true -> is_end0 tm = false) /\ (is_end0 tm = true -> is_start0 tm = false).
+Proof. unfold is_start0, is_end0. destruct (tm_anchor tm); split; intros H; try reflexivity; discriminate. Qed.
+
+Lemma two_entries_shape d : two_entries d = true ->
+  exists a b ls le, d_effs d = [(a, ls); (b, le)] /\ is_start0 a = true /\ is_end0 b = true /\
+                    start_effs d = ls /\ end_effs d = le.
+Proof.
+  unfold two_entries, start_effs, end_effs, effs_at. destruct (d_effs d) as [|[a ls] [|[b le] [|]]]; try discriminate.
+  intros H. apply andb_true_iff in H. destruct H as [Ha Hb]. exists a, b, ls, le.
+  split; [reflexivity|]. split; [exact Ha|]. split; [exact Hb|].
+  cbn [flat_map fst snd]. rewrite Ha, Hb, (proj1 (start_end_excl a) Ha), (proj2 (start_end_excl b) Hb).
+  cbn [app]. rewrite !app_nil_r. split; reflexivity.
+Qed.
+
+Lemma iv_facts2 s d iv u :
+  end_point (ti_lo iv) = true -> end_point (ti_hi iv) = true -> zq 0 < d ->
+  in_iv (abs_interval s d iv) u ->
+  s <= u /\ u <= s + d /\
+  (u <= s -> is_start0 (ti_lo iv) && negb (ti_lopen iv) = true) /\ (s < u -> is_end0 (ti_hi iv) = true).
+Proof.
+  intros EL EH D [L U]. pose proof (lt_plus s d D) as SD.
+  unfold abs_interval in *. cbn [ai_lo ai_hi ai_lopen ai_ropen] in *.
+  unfold end_point in *. apply orb_true_iff in EL. apply orb_true_iff in EH.
+  set (e := s + d) in *.
+  destruct EL as [EL|EL]; [rewrite (abs_time_start s d _ EL) in L | rewrite (abs_time_end s d _ EL) in L; fold e in L];
+  (destruct EH as [EH|EH]; [rewrite (abs_time_start s d _ EH) in U | rewrite (abs_time_end s d _ EH) in U; fold e in U]);
+  rewrite ?EL, ?EH; destruct (ti_lopen iv), (ti_ropen iv); cbn [negb andb];
+  unfold Qclt, Qcle in *;
+  try (exfalso; lra);
+  (split; [lra | split; [lra | split; intros K; first [reflexivity | exfalso; lra]]]).
+Qed.
+
+(* one durative step with the happenings [now; t2], now < t2 < now', in front of a suffix that starts at now' *)
+Lemma assemble2 sc TP k now now' t2 st r ev1 ev2 (s_t s_mid s_t1 : state) tr' H0 s_fin :
+  now < t2 -> t2 < now' ->
+  (forall e, In e H0 -> ev_time e < now) ->
+  ev_time ev1 = now -> ev_time ev2 = t2 -> step_events TP k st = [ev1; ev2] ->
+  ref_apply sc (tp_base TP) s_t [ev1] = Some s_mid -> ref_apply sc (tp_base TP) s_mid [ev2] = Some s_t1 ->
+  run_ok sc TP (S k) now' s_t1 r (H0 ++ [ev1; ev2]) tr' s_fin ->
+  (forall x, In x r -> now' <= ps_start x) ->
+  (forall c, In c (step_conds TP st) -> forall u, in_iv (tc_iv c) u ->
+     now <= u /\ u <= t2 /\ (u <= now -> holds_in sc TP s_t (tc_bind c) (tc_expr c) = true) /\
+     (now < u -> holds_in sc TP s_mid (tc_bind c) (tc_expr c) = true)) ->
+  (forall tr, Temporal.step_dur_ok sc TP s_t ((now, s_mid) :: tr) st = true) ->
+  run_ok sc TP k now s_t (st :: r) H0 ((now, s_mid) :: (t2, s_t1) :: tr') s_fin.
+Proof.
+  intros NT TN HB ET1 ET2 EV R1 R2 (RT & C1 & C2 & C3 & C6 & C7 & C5) STARTS HEADIV HEADDUR.
+  assert (HK : Hk TP k (st :: r) = ev1 :: ev2 :: Hk TP (S k) r).
+  { unfold Hk. cbn [indexed_from flat_map fst snd]. rewrite EV. reflexivity. }
+  rewrite <- app_assoc in RT. cbn [app] in RT.
+  assert (KE : forall e, In e (Hk TP (S k) r) -> now' <= ev_time e).
+  { intros e Hin. apply C7. apply in_map. exact Hin. }
+  assert (Q1 : qc_eqb now now = true) by (apply qc_eqb_eq; reflexivity).
+  assert (Q2 : qc_eqb t2 t2 = true) by (apply qc_eqb_eq; reflexivity).
+  assert (Q3 : qc_eqb t2 now = false) by (apply qc_eqb_false; intros E; rewrite E in NT; unfold Qclt in NT; lra).
+  assert (Q4 : qc_eqb now t2 = false) by (apply qc_eqb_false; intros E; rewrite E in NT; unfold Qclt in NT; lra).
+  assert (EA1 : events_at now (H0 ++ ev1 :: ev2 :: Hk TP (S k) r) = [ev1]).
+  { rewrite events_at_app. rewrite (events_at_none now H0).
+    - rewrite !events_at_cons. rewrite ET1, ET2, Q1, Q3.
+      rewrite (events_at_none now (Hk TP (S k) r)); [reflexivity|].
+      intros x Hx E'. specialize (KE x Hx). rewrite E' in KE. unfold Qclt, Qcle in *. lra.
+    - intros x Hx E'. specialize (HB x Hx). rewrite E' in HB. unfold Qclt, Qcle in *. lra. }
+  assert (EA2 : events_at t2 (H0 ++ ev1 :: ev2 :: Hk TP (S k) r) = [ev2]).
+  { rewrite events_at_app. rewrite (events_at_none t2 H0).
+    - rewrite !events_at_cons. rewrite ET1, ET2, Q2, Q4.
+      rewrite (events_at_none t2 (Hk TP (S k) r)); [reflexivity|].
+      intros x Hx E'. specialize (KE x Hx). rewrite E' in KE. unfold Qclt, Qcle in *. lra.
+    - intros x Hx E'. specialize (HB x Hx). rewrite E' in HB. unfold Qclt, Qcle in *. lra. }
+  unfold run_ok. rewrite HK. cbn [map]. rewrite ET1, ET2.
+  split; [cbn [run_times]; rewrite EA1, R1, EA2, R2, RT; reflexivity|].
+  split; [|split; [|split; [|split; [|split]]]].
+  - intros x [<-|Hx] c Hc u Hu.
+    + destruct (HEADIV c Hc u Hu) as (_ & U2 & HS & HM). destruct (Qclt_le_dec now u) as [L|L].
+      * rewrite (state_at_cons_lt s_t now s_mid _ u L). rewrite (state_at_cons_le s_mid t2 s_t1 tr' u U2). exact (HM L).
+      * rewrite (state_at_cons_le s_t now s_mid _ u L). exact (HS L).
+    + pose proof (C5 x Hx c Hc u Hu) as U.
+      rewrite (state_at_cons_lt s_t now s_mid _ u); [|unfold Qclt, Qcle in *; lra].
+      rewrite (state_at_cons_lt s_mid t2 s_t1 tr' u); [exact (C1 x Hx c Hc u Hu)|unfold Qclt, Qcle in *; lra].
+  - intros x [<-|Hx]; [apply HEADDUR|]. specialize (STARTS x Hx).
+    unfold Temporal.step_dur_ok. rewrite (state_at_cons_lt s_t now s_mid _ (ps_start x)); [|unfold Qclt, Qcle in *; lra].
+    rewrite (state_at_cons_lt s_mid t2 s_t1 tr' (ps_start x)); [exact (C2 x Hx)|unfold Qclt, Qcle in *; lra].
+  - cbn [final_state]. exact C3.
+  - change (asc_from now (t2 :: map ev_time (Hk TP (S k) r))). cbn [asc_from]. split; [exact NT|].
+    apply asc_from_of_asc; [exact C6|]. intros x Hx. specialize (C7 x Hx). unfold Qclt, Qcle in *. lra.
+  - intros x [<-|[<-|Hx]]; [apply Qcle_refl | apply Qclt_le_weak; exact NT|].
+    specialize (C7 x Hx). unfold Qclt, Qcle in *. lra.
+  - intros x [<-|Hx] c Hc u Hu.
+    + exact (proj1 (HEADIV c Hc u Hu)).
+    + pose proof (C5 x Hx c Hc u Hu) as U. unfold Qclt, Qcle in *. lra.
+Qed.
+
+Lemma frag_empty_of TP : t2s_fragment TP = true -> tp_teffs TP = [] /\ tp_tgoals TP = [] /\ p_invs (tp_base TP) = [].
+Proof.
+  intros A. unfold t2s_fragment in A. rewrite !andb_true_iff in A. destruct A as [[[[A1 A2] A3] _] _].
+  destruct (tp_teffs TP); [|discriminate]. destruct (tp_tgoals TP); [|discriminate].
+  destruct (p_invs (tp_base TP)); [|discriminate]. repeat split.
+Qed.
+
+Section ComposeStart.
+  Variable sc : bool.
+  Variable smp : expr -> expr.
+  Hypothesis OK : forall e I, eval sc (smp e) I = eval sc e I.
+  Variable TP : tproblem.
+  Let P := tp_base TP.
+  Variable P' : problem.
+  Variable eps : Qc.
+  Hypothesis FR : start_end_fragment smp TP = true.
+  Hypothesis CP : t2s_problem smp TP = Some P'.
+  Hypothesis He : zq 0 < eps.
+
+  Lemma s_frag_parts :
+    t2s_fragment TP = true /\
+    forallb (fun id => two_entries (snd id) &&
+                       match t2s_action smp (snd id) with Some a' => start_not_read_step smp (snd id) a' | None => false end)
+            (tp_dur TP) = true.
+  Proof. unfold start_end_fragment in FR. apply andb_true_iff in FR. exact FR. Qed.
+
+  Lemma s_compiled_shape : exists acts, t2s_actions smp (tp_dur TP) = Some acts /\ same_base P P' /\
+    forall aid, lookup_action P' aid = lookupN aid (p_actions P ++ acts).
+  Proof.
+    unfold t2s_problem in CP. destruct (t2s_actions smp (tp_dur TP)) as [acts|]; [|discriminate].
+    exists acts. split; [reflexivity|]. inversion CP as [E]. split; [repeat split|]. intros aid. reflexivity.
+  Qed.
+
+  Lemma s_inst_facts aid ai a' :
+    lookup_tact TP aid = Some (TInst ai) -> lookup_action P' aid = Some a' -> a' = ai.
+  Proof.
+    intros LT LA. destruct s_compiled_shape as (acts & _ & _ & LK). rewrite LK in LA.
+    unfold lookup_tact in LT. fold P in LT. destruct (lookupN aid (p_actions P)) as [a0|] eqn:E.
+    - inversion LT; subst a0. rewrite (lookupN_app_l aid _ acts ai E) in LA. inversion LA. reflexivity.
+    - destruct (lookupN aid (tp_dur TP)); discriminate.
+  Qed.
+
+  Lemma s_action_facts aid d a' :
+    lookup_tact TP aid = Some (TDur d) -> lookup_action P' aid = Some a' ->
+    start_not_read_step smp d a' = true /\ a_params a' = d_params d /\ conds_supported d = true /\ two_entries d = true.
+  Proof.
+    intros LT LA. destruct s_compiled_shape as (acts & TA & _ & LK). rewrite LK in LA.
+    destruct s_frag_parts as (A & C).
+    unfold lookup_tact in LT. fold P in LT. destruct (lookupN aid (p_actions P)) as [a0|] eqn:E; [discriminate|].
+    rewrite (lookupN_app_r aid _ acts E) in LA.
+    destruct (lookupN aid (tp_dur TP)) as [d0|] eqn:LD; [|discriminate]. inversion LT; subst d0.
+    pose proof (t2s_actions_lookup smp _ acts TA aid d a' LD LA) as T.
+    pose proof (lookupN_In _ _ _ LD) as Hin.
+    rewrite forallb_forall in C. specialize (C _ Hin). cbn [snd] in C. rewrite T in C.
+    apply andb_true_iff in C. destruct C as [C0 C].
+    split; [exact C|]. split; [exact (t2s_action_params smp d a' T)|]. split; [|exact C0].
+    unfold t2s_fragment in A. rewrite !andb_true_iff in A. destruct A as [[_ A] _].
+    rewrite forallb_forall in A. specialize (A _ Hin). cbn [snd] in A. apply andb_true_iff in A. exact (proj2 A).
+  Qed.
+
+  Lemma step_events_two k st d dt a b ls le :
+    lookup_tact TP (ps_act st) = Some (TDur d) -> ps_dur st = Some dt ->
+    d_effs d = [(a, ls); (b, le)] -> is_start0 a = true -> is_end0 b = true ->
+    step_events TP k st =
+    [ {| ev_time := ps_start st; ev_src := Some k; ev_bind := zip_params (d_params d) (ps_args st); ev_effs := ls |};
+      {| ev_time := ps_start st + dt; ev_src := Some k; ev_bind := zip_params (d_params d) (ps_args st); ev_effs := le |} ].
+  Proof.
+    intros LT PD DE Ia Ib. unfold step_events. rewrite LT, PD, DE. cbn [map fst snd].
+    rewrite (abs_time_start _ _ _ Ia), (abs_time_end _ _ _ Ib). reflexivity.
+  Qed.
+
+  Lemma s_compose_run : forall pi k now (s_s s_t : state) tpl H0 s_fin,
+    state_eq s_t s_s ->
+    back_plan sc TP P' eps now s_s pi = Some tpl ->
+    run P' (spec_step sc P') s_s pi = Some s_fin ->
+    nonempty_along sc TP P' s_s pi -> positive_durations tpl ->
+    (forall e, In e H0 -> ev_time e < now) ->
+    exists tr, run_ok sc TP k now s_t tpl H0 tr s_fin.
+  Proof.
+    induction pi as [|[aid args] rest IH]; intros k now s_s s_t tpl H0 s_fin SE BP RUN NE POS HB.
+    - cbn in BP. inversion BP; subst tpl. cbn in RUN. inversion RUN; subst s_fin.
+      exists []. unfold run_ok. split; [reflexivity|]. split; [intros st []|]. split; [intros st []|]. split; [exact SE|].
+      split; [exact I|]. split; [intros x []|intros st []].
+    - destruct (back_plan_cons _ _ _ _ _ _ _ _ _ _ BP) as (a' & s_s' & r & od & La & Sp & -> & Hr & Hkind).
+      cbn [run] in RUN. unfold lookup_action in La. unfold lookup_action in RUN. rewrite La, Sp in RUN.
+      cbn [nonempty_along] in NE. unfold lookup_action in NE. rewrite La, Sp in NE. destruct NE as [NE1 NE2].
+      assert (POSr : positive_durations r) by (intros x dx Hx; apply POS; right; exact Hx).
+      destruct s_compiled_shape as (acts0 & _ & SB & _).
+      assert (STARTS : forall now', chained_t eps now' r -> forall x, In x r -> now' <= ps_start x).
+      { intros now' CH. assert (F : Forall (fun x => zq 0 <= dur_t x) r).
+        { apply Forall_forall. intros x Hx. unfold dur_t. destruct (ps_dur x) as [dx|] eqn:E; [|apply Qcle_refl].
+          apply Qclt_le_weak. exact (POSr x dx Hx E). }
+        pose proof (chained_after eps He r now' CH F) as CA. rewrite Forall_forall in CA. exact CA. }
+      pose proof (back_plan_chained _ _ _ _ _ _ _ _ Hr) as CHr.
+      destruct od as [dt|].
+      + destruct Hkind as (d & LT & SD). rewrite LT in NE1.
+        set (st := {| ps_start := now; ps_act := aid; ps_args := args; ps_dur := Some dt |}) in *.
+        assert (Dpos : zq 0 < dt) by (apply (POS st dt); [left; reflexivity | reflexivity]).
+        destruct (s_action_facts aid d a' LT La) as (SN & EP & CS & TE).
+        destruct (two_entries_shape d TE) as (ta & tb & ls & le & DE & Ia & Ib & SEq & EEq).
+        set (t2 := now + dt).
+        destruct (step_start_not_read sc smp OK P P' SB d a' args s_s s_t s_s' (Some k) now t2 SN EP SE Sp)
+          as (s_mid & s_t1 & R1 & R2 & SE1 & CH).
+        rewrite SEq in R1. rewrite EEq in R2.
+        set (ev1 := {| ev_time := now; ev_src := Some k; ev_bind := zip_params (d_params d) args; ev_effs := ls |}) in *.
+        set (ev2 := {| ev_time := t2; ev_src := Some k; ev_bind := zip_params (d_params d) args; ev_effs := le |}) in *.
+        assert (EV : step_events TP k st = [ev1; ev2]) by (apply (step_events_two k st d dt ta tb ls le LT eq_refl DE Ia Ib)).
+        assert (NT : now < t2) by (apply lt_plus; exact Dpos).
+        assert (TN : t2 < t2 + eps) by (apply lt_plus; exact He).
+        assert (HB' : forall e, In e (H0 ++ [ev1; ev2]) -> ev_time e < t2 + eps).
+        { intros e Hin. apply in_app_or in Hin. destruct Hin as [Hin|[<-|[<-|[]]]].
+          - specialize (HB e Hin). unfold Qclt in *. lra.
+          - cbn [ev_time ev1]. unfold Qclt in *. lra.
+          - exact TN. }
+        destruct (IH (S k) (t2 + eps) s_s' s_t1 r (H0 ++ [ev1; ev2]) s_fin SE1 Hr RUN NE2 POSr HB') as (tr' & ROK).
+        exists ((now, s_mid) :: (t2, s_t1) :: tr').
+        apply (assemble2 sc TP k now (t2 + eps) t2 st r ev1 ev2 s_t s_mid s_t1 tr' H0 s_fin NT TN HB eq_refl eq_refl EV R1 R2 ROK
+                         (STARTS _ CHr)).
+        * intros c Hc u Hu. destruct (step_conds_in TP st d dt c LT eq_refl Hc) as (ic & e & I1 & I2 & ->).
+          cbn [tc_iv tc_bind tc_expr] in *. unfold conds_supported in CS. rewrite forallb_forall in CS.
+          specialize (CS ic I1). apply andb_true_iff in CS. destruct CS as [CL CHi].
+          destruct (iv_facts2 now dt (fst ic) u CL CHi Dpos Hu) as (U1 & U2 & KS & KE).
+          destruct (CH ic e I1 I2) as [H1 H2].
+          split; [exact U1|]. split; [exact U2|]. unfold holds_in. fold P.
+          split; [intros L; exact (H1 (KS L)) | intros L; exact (H2 (KE L))].
+        * intros tr. unfold Temporal.step_dur_ok. cbn [ps_act ps_dur ps_start st]. rewrite LT.
+          rewrite (state_at_cons_le s_t now s_mid tr now (Qcle_refl _)).
+          rewrite (dur_ok_ext sc TP s_t s_s _ d dt SE). exact (step_dur_ok sc TP s_s d args dt SD NE1).
+      + destruct Hkind as (ai & LT).
+        pose proof (s_inst_facts aid ai a' LT La) as ->.
+        set (st := {| ps_start := now; ps_act := aid; ps_args := args; ps_dur := None |}) in *.
+        destruct (gen_step sc P P' SB ai args s_s s_t s_s' (Some k) now SE Sp) as (A & s_t1 & R1 & SE1).
+        set (ev := {| ev_time := now; ev_src := Some k; ev_bind := zip_params (a_params ai) args; ev_effs := a_effs ai |}) in *.
+        assert (EV : step_events TP k st = [ev]) by (unfold step_events; cbn [ps_act st]; rewrite LT; reflexivity).
+        assert (TN : now < now + eps) by (apply lt_plus; exact He).
+        assert (HB' : forall e, In e (H0 ++ [ev]) -> ev_time e < now + eps).
+        { intros e Hin. apply in_app_or in Hin. destruct Hin as [Hin|[<-|[]]].
+          - specialize (HB e Hin). unfold Qclt in *. lra.
+          - exact TN. }
+        destruct (IH (S k) (now + eps) s_s' s_t1 r (H0 ++ [ev]) s_fin SE1 Hr RUN NE2 POSr HB') as (tr' & ROK).
+        exists ((now, s_t1) :: tr').
+        apply (assemble sc TP k now (now + eps) now st r ev s_t s_t1 tr' H0 s_fin (Qcle_refl _) TN HB eq_refl EV R1 ROK
+                        (STARTS _ CHr)).
+        * intros c Hc u Hu. unfold step_conds in Hc. cbn [ps_act ps_start ps_args st] in Hc. rewrite LT in Hc.
+          apply in_map_iff in Hc. destruct Hc as [e [<- He']]. cbn [tc_iv tc_bind tc_expr] in *.
+          destruct Hu as [U1 U2]. cbn in U1, U2. split; [exact U1|]. split; [exact U2|].
+          unfold holds_in. fold P. unfold all_hold in A. rewrite forallb_forall in A. exact (A e He').
+        * intros tr. unfold Temporal.step_dur_ok. cbn [ps_act ps_dur st]. rewrite LT. reflexivity.
+  Qed.
+
+  Theorem plan_start_not_read s0 pi tpl :
+    bound_invs P = [] ->
+    valid_plan sc P' s0 pi = true ->
+    back_plan sc TP P' eps (zq 0) s0 pi = Some tpl ->
+    nonempty_along sc TP P' s0 pi -> positive_durations tpl ->
+    tt_valid sc TP s0 tpl.
+  Proof.
+    intros BI V BP NE POS.
+    unfold valid_plan in V. destruct (run P' (spec_step sc P') s0 pi) as [s_fin|] eqn:RUN; [|discriminate].
+    destruct (s_compose_run pi 0%nat (zq 0) s0 s0 tpl [] s_fin (fun f a => eq_refl) BP RUN NE POS
+                            (fun e F => match F with end))
+      as (tr & RT & C1 & C2 & C3 & C6 & _ & _).
+    destruct (frag_empty_of TP (proj1 s_frag_parts)) as (E1 & E2 & E3). destruct s_compiled_shape as (acts0 & _ & SB & _).
+    assert (AE : all_events TP tpl = Hk TP 0 tpl).
+    { unfold all_events, timed_events. rewrite E1. reflexivity. }
+    assert (TS : times_of (all_events TP tpl) = map ev_time (Hk TP 0 tpl)).
+    { rewrite AE. destruct (times_of_spec (Hk TP 0 tpl)) as [T1 T2]. apply asc_unique; [exact T1 | exact C6 | exact T2]. }
+    split; [exact (back_plan_wf _ _ _ _ _ _ _ _ BP)|].
+    exists tr. rewrite TS, AE. split; [exact RT|]. split; [exact C2|]. split.
+    - intros c Hc. unfold all_conds, global_conds in Hc. rewrite E2 in Hc. fold P in Hc. fold P in E3. rewrite E3, BI in Hc.
+      cbn in Hc. apply in_flat_map in Hc. destruct Hc as [st [H1 H2]]. exact (C1 st H1 c H2).
+    - rewrite <- V. unfold goals_hold. fold P. pose proof SB as (_ & _ & _ & SG). rewrite SG.
+      symmetry. apply all_hold_ext. apply (mk_interp_base P P' _ _ [] SB).
+      intros f a. symmetry. apply C3.
+  Qed.
+End ComposeStart.
